@@ -881,3 +881,141 @@ def tie_imports(ctx: Ctx) -> None:
                               found_input=bool(unbound))
     ctx.sample({"import_ops": lines[3], "model_and_impl": model[3]})
     ctx.coverage["import_disagreements"] = bad
+
+
+# ----------------------------------------------------------------------------------------- D: return type
+CONV_TABLE = {"float": "float", "bool": "bool", "bytes": "bytes", "int": "int", "complex": "complex", "str": "str",
+              "eq": "bool", "ne": "bool", "lt": "bool", "le": "bool", "gt": "bool", "ge": "bool", "contains": "bool",
+              "len": "int", "length_hint": "int", "index": "int", "hash": "int", "sizeof": "int", "trunc": "int",
+              "floor": "int", "ceil": "int", "format": "str", "repr": "str", "init": "None", "setitem": "None",
+              "del": "None", "delitem": "None"}
+RET_ANNS = ["Mask", "Vec", "int", "bool", "str", "None", "int | None", "list[Vec]", "Any", "float", "tuple[int, ...]", "object"]
+BODIES = [  # (lines, yieldFrom, yields, yieldsValue, yieldAssigned, returnsValue)
+    (["pass"], 0, 0, 0, 0, 0),
+    (["return None"], 0, 0, 0, 0, 0),
+    (["return"], 0, 0, 0, 0, 0),
+    (["return 1"], 0, 0, 0, 0, 1),
+    (["return self_or(1)"], 0, 0, 0, 0, 1),
+    (["raise NotImplementedError"], 0, 0, 0, 0, 0),
+    (["..."], 0, 0, 0, 0, 0),
+    (["yield"], 0, 1, 0, 0, 0),
+    (["yield None"], 0, 1, 0, 0, 0),
+    (["yield 1"], 0, 1, 1, 0, 0),
+    (["x = yield"], 0, 1, 0, 1, 0),
+    (["x = yield 2", "return x"], 0, 1, 1, 1, 1),
+    (["yield 1", "return 3"], 0, 1, 1, 0, 1),
+    (["yield from other()"], 1, 0, 0, 0, 0),
+    (["yield from other()", "return 1"], 1, 0, 0, 0, 1),
+    (["if a:", "    return 2", "return None"], 0, 0, 0, 0, 1),
+]
+
+
+def tie_returns(ctx: Ctx) -> None:
+    rng = ctx.rng
+    names = ["__" + n + "__" for n in CONV_TABLE] + ["__iter__", "__call__", "__next__", "__enter__", "__add__",
+                                                    "__getitem__", "__await__", "__neg__"]
+    cases = []
+    n = ctx.pick(1200, 8000)
+    # every name of the table x {unannotated, conventional annotation, non-conventional annotation} deterministically
+    fixed = []
+    for nm_ in names:
+        for mode in ("none", "conv", "other", "params-only"):
+            fixed.append((nm_, mode))
+    for i in range(n + len(fixed)):
+        if i < len(fixed):
+            name, amode = fixed[i]
+            ctxk = "method"
+        else:
+            name = rng.choice(names) if rng.random() < 0.6 else f"plain{i}"
+            amode = rng.choice(["none", "conv", "other", "other", "params-only", "any"])
+            ctxk = rng.choice(["method", "method", "func", "abstract", "static"])
+            if ctxk == "func" and name.startswith("__"):
+                ctxk = "method"        # module-level names must be unique (a second definition is not emitted)
+        conv = CONV_TABLE.get(name[2:-2]) if name.startswith("__") else None
+        if amode == "none":
+            annotated, ret = False, None
+        elif amode == "params-only":
+            annotated, ret = True, None
+        elif amode == "conv":
+            annotated, ret = True, (conv or "int")
+        elif amode == "any":
+            annotated, ret = True, "Any"
+        else:
+            annotated, ret = True, rng.choice([r for r in RET_ANNS if r != conv])
+        body = rng.choice(BODIES)
+        is_async = rng.random() < 0.08 and not (body[1] or body[2])
+        cases.append({"name": name, "ctx": ctxk, "annotated": annotated, "ret": ret, "body": body, "async": is_async, "i": i})
+    lines = ["import abc", "from typing import Any", "class Mask: pass", "class Vec: pass", "def other(): yield 1",
+             "def self_or(x): return x"]
+    for c in cases:
+        first = {"method": "self", "abstract": "self", "static": None, "func": None}[c["ctx"]]
+        params = ([first] if first else []) + (["a: int"] if c["annotated"] and c["ret"] is None else ["a"])
+        if c["annotated"] and c["ret"] is not None and rng.random() < 0.5:
+            params[-1] = "a: int"
+        head = ("async " if c["async"] else "") + f"def {c['name']}({', '.join(params)})" + (f" -> {c['ret']}" if c["ret"] is not None else "") + ":"
+        if c["ctx"] == "func":
+            lines += [head] + ["    " + b for b in c["body"][0]]
+        else:
+            base = "(abc.ABC)" if c["ctx"] == "abstract" else ""
+            lines.append(f"class R{c['i']}{base}:")
+            if c["ctx"] == "abstract":
+                lines.append("    @abc.abstractmethod")
+            if c["ctx"] == "static":
+                lines.append("    @staticmethod")
+            lines += ["    " + head] + ["        " + b for b in c["body"][0]]
+    out = real_stub("\n".join(lines) + "\n").splitlines()
+    drv = []
+    for c in cases:
+        b = c["body"]
+        flags = [int(c["ctx"] == "abstract"), 0, b[1], b[2], b[3], b[4], b[5]]
+        drv.append("T %s\t%d\t%s\t%s" % (c["name"], int(c["annotated"]), c["ret"] or "-", " ".join(map(str, flags))))
+    model = ctx.lean_driver("Driver/C19.lean", drv)
+    if len(model) != len(cases):
+        raise ToolFailure("driver line count mismatch (returns)")
+    bad = 0
+    seen: set[str] = set()
+    for c, m in zip(cases, model):
+        ctx.case(("D", c["name"] if c["name"].startswith("__") else "plain", c["ctx"], c["annotated"], c["ret"], c["body"][0], c["async"]))
+        ctx.dist("return_annotation", "none" if not c["annotated"] else "params-only" if c["ret"] is None else
+                 "conventional" if c["ret"] == CONV_TABLE.get(c["name"][2:-2], "?") else "non-conventional")
+        ctx.dist("return_name", "table" if c["name"][2:-2] in CONV_TABLE and c["name"].startswith("__") else "other")
+        if c["ctx"] == "func":
+            pat = re.compile(rf"(async )?def {re.escape(c['name'])}\(")
+            line = next((l for l in out if pat.match(l)), None)
+        else:
+            start = next((k for k, l in enumerate(out) if l.startswith(f"class R{c['i']}:") or l.startswith(f"class R{c['i']}(")), None)
+            line = None
+            if start is not None:
+                for l in out[start + 1:]:
+                    if l and not l.startswith(" "):
+                        break
+                    if re.match(r"\s+(async )?def ", l):
+                        line = l
+                        break
+        if line is None:
+            raise ToolFailure(f"tie D: no def line for case {c['i']} ({c['name']})")
+        mret = re.search(r"\) -> (.*): \.\.\.$", line)
+        real = mret.group(1) if mret else "-"
+        ctx.count("traces_validated_against_impl")
+        same = real == m
+        # the property's own oracle: a spelled-out return annotation must be the stub's
+        lost = c["annotated"] and c["ret"] is not None and c["name"] != "__init__" and real != c["ret"]
+        if same and not lost:
+            continue
+        ctx.count("disagreements_checked")
+        if lost:
+            key = "lost:" + ("table" if c["name"][2:-2] in CONV_TABLE else "other")
+            if key not in seen:
+                seen.add(key)
+                ctx.report({"class": "return-annotation-replaced", "name": c["name"]},
+                           f"`def {c['name']}(…) -> {c['ret']}` is emitted as `{line.strip()}`: the spelled-out return annotation is lost",
+                           {"part": "D", "source": lines[:6] + ["class R(abc.ABC):" if c["ctx"] == "abstract" else "class R:",
+                            "    def %s(self, a) -> %s:" % (c["name"], c["ret"])] + ["        " + b for b in c["body"][0]],
+                            "emitted": line, "model": m})
+        if not same:
+            bad += 1
+            if bad <= 3:
+                ctx.violation("return-type correspondence broken (model ≠ ASTStubGenerator._get_func_return)",
+                              {"broken": "correspondence Driver/C19 `T`", "part": "D", "case": {k: v for k, v in c.items() if k != "body"},
+                               "body": c["body"][0], "emitted": line, "model": m}, found_input=bool(lost))
+    ctx.coverage["return_disagreements"] = bad
